@@ -373,6 +373,17 @@ namespace
                         c12_fail = true;
                     }
                 }
+                // C13: a lake node has no lower receiver with a positive drop: the equation reduces to erosion = 0
+                if (R.want("C13") && lake && !c13_fail)
+                {
+                    R.count("c13.lake_nodes_checked");
+                    if (std::fabs(e[i]) > rtol)
+                    {
+                        R.violation("C13", "residual_exceeds_tolerance/lake_node",
+                                    witness("node " + std::to_string(i) + " lies at or below its lowest receiver (no lower receiver) but erosion " + jnum(e[i])));
+                        c13_fail = true;
+                    }
+                }
                 // C13: residual of the implicit equation where erosion was not limited
                 if (R.want("C13") && !lake && !is_corr[i] && !c13_fail)
                 {
